@@ -91,6 +91,11 @@ def run(ctx):
     texts += rendered
     for f in rendered[:: (1 if ctx.thorough else 4)]:
         texts.append(gens.mutate(rng, f))
+    # every name the parser's own source singles out, as a call with 0-3 arguments, with a one-element trailing-comma list, with named parameters,
+    # under a namespace, and as a field
+    for nm in gens.source_names():
+        texts += [f"{nm}()", f"{nm}(a)", f"{nm}('a',)", f"{nm}(a, 'b')", f"{nm}(1, 2, 3)", f"{nm}((1, 2),)", f"{nm}(x=1)", f"ns.{nm}('a',)", f"geo.{nm}(a, b)", f"{nm} eq 1",
+                  f"x/{nm} eq 1", f"x eq 1 and {nm}('a',)", f"{nm}( a , )"]
     # keywords respelled with Unicode case twins (ſ ı İ K): re.I still matches them, the actions see a non-ASCII spelling
     for f in list(gens.VALID_FILTERS) + gens.KEYWORD_FILTERS:
         texts += gens.unicode_case_variants(f)
